@@ -12,7 +12,7 @@ from typing import Dict, List, Optional, Set, Tuple, Union
 from netqasm.lang import encoding
 from netqasm.lang.instr import DebugInstruction, NetQASMInstruction, core, nv, vanilla
 from netqasm.lang.instr.flavour import REIDSFlavour
-from netqasm.lang.operand import Immediate, Register, RegisterName
+from netqasm.lang.operand import Immediate, Register, RegisterName, Template
 from netqasm.lang.subroutine import Subroutine
 from netqasm.runtime.settings import get_is_using_hardware
 from netqasm.util.log import HostLine
@@ -679,16 +679,30 @@ class REIDSSubroutineTranspiler(SubroutineTranspiler):
 def get_hardware_num_denom(
     instr: core.RotationInstruction,
 ) -> Tuple[Immediate, Immediate]:
-    if instr.angle_denom.value not in [0, 1, 2, 3, 4]:
+    if isinstance(instr.angle_num, Template) or isinstance(instr.angle_denom, Template):
+        # A value that is filled in later (pre-compiled subroutine) cannot be rescaled now:
+        # it is accepted as the numerator of a rotation that is already in units of pi / 16.
+        if isinstance(instr.angle_denom, Template) or int(instr.angle_denom.value) != 4:
+            raise ValueError(
+                f"Instruction {instr} not supported: an angle that is filled in later "
+                f"needs angle_denom 4."
+            )
+        return (instr.angle_num, instr.angle_denom)
+
+    # The integer values are what is checked and what is used
+    # (an int subclass can carry its value in `__int__`)
+    denom = int(instr.angle_denom.value)
+    num = int(instr.angle_num.value)
+    if denom not in [0, 1, 2, 3, 4]:
         raise ValueError(
             f"Instruction {instr} not supported: angle_denom is {instr.angle_denom}."
         )
 
     # The numerator given by the user still has to be one that an immediate can hold
-    encoding.assert_fits(instr.angle_num.value, encoding.IMMEDIATE)
+    encoding.assert_fits(num, encoding.IMMEDIATE)
 
-    denom_diff = 4 - instr.angle_denom.value
+    denom_diff = 4 - denom
     # A rotation by angle_num * pi / 16 has period 32 in angle_num: leave out
     # whole turns so that the rescaled numerator still fits in an immediate.
-    angle_num = (instr.angle_num.value * (2**denom_diff)) % 32
+    angle_num = (num * (2**denom_diff)) % 32
     return (Immediate(angle_num), Immediate(4))
